@@ -476,8 +476,8 @@ func init() {
 		Setup:       validateOracle,
 		Timeout:     minutes(15, 120),
 		Cases: func(tier string, seed int64) []fw.Case {
-			l := mkCases(nil, "sequences", 64, seed, pick(tier, 14, 1200))
-			return mkCases(l, "engine", 16, seed, pick(tier, 3, 150))
+			l := mkCases(nil, "sequences", 64, seed, pick(tier, 14, 250))
+			return mkCases(l, "engine", 16, seed, pick(tier, 3, 60))
 		},
 		Floors: func(string) map[string]int64 {
 			return map[string]int64{"tt_searches": 1500, "tt_hits": 5000, "exact_entries_verified": 1000, "game_plies": 100, "narrow_window_searches": 100, "engine_tt_compared": 40}
